@@ -31,6 +31,8 @@ extern unsigned verif_c_ci; extern unsigned verif_c_chk_calls; extern int verif_
 extern int verif_c_chk_nonca; extern int verif_c_plc_ci; extern size_t verif_c_chk_last; extern size_t verif_c_chk_first;
 extern size_t verif_c_chk_second;
 extern unsigned verif_c_vfy_calls; extern int verif_c_vfy_bad; extern size_t verif_c_vfy_prev_parent; extern int verif_c_vfy_second;
+/* ghost record of a trust-store lookup */
+extern int verif_l_ne_last; extern size_t verif_l_ne_a_of; extern size_t verif_l_gs_of; extern unsigned verif_l_calls;
 #else
 # define VERIF_LOOP_ASSIGNS(...)
 # define VERIF_LOOP_INVARIANT(...)
